@@ -136,6 +136,11 @@ func (v *Verifier) verifyFunc(key string, splitName, splitCase string, splitCond
 	}
 	st := &State{vars: map[types.Object]*Val{}, heap: map[string]string{}, ghost: map[string]string{}}
 	c.pre = &State{vars: map[types.Object]*Val{}, heap: map[string]string{}, ghost: map[string]string{}}
+	c.decls.declFun("alloc0", nil, SInt)
+	st.alloc = "alloc0"
+	c.pre.alloc = "alloc0"
+	c.decls.declFun("allocated0", []Sort{SInt}, SBool)
+	c.addFact("(forall ((r Int)) (! (=> (allocated0 r) (<= r alloc0)) :pattern ((allocated0 r))))")
 	// parameters
 	bindParam := func(id *ast.Ident) {
 		o, _ := c.info.Defs[id].(*types.Var)
@@ -447,7 +452,7 @@ func (c *FnCtx) frameObligations(rs *State, ri int) {
 			if p.Typ != nil {
 				if pt, ok := p.Typ.Underlying().(*types.Pointer); ok {
 					if es := c.sortOf(pt.Elem()); es != SNone {
-						k := "ptr." + sortName(es)
+						k := c.ptrKey(pt.Elem())
 						allowed[k] = append(allowed[k], p.T)
 					} else {
 						ms := newModSet()
